@@ -162,6 +162,9 @@ func (t *terminal) ptyReadOne(gr *GraphemeReader) error {
 	return nil
 }
 
+// maxCSIParam is the largest value a CSI numeric parameter can take; larger values saturate.
+const maxCSIParam = 65535
+
 type escapeReader interface {
 	ReadByte() (byte, error)
 	// Buffered() int
@@ -295,6 +298,9 @@ func (t *terminal) handleCmdCSI(r escapeReader) bool {
 			sawSeparator = true
 		} else {
 			param = param*10 + int(b-'0')
+			if param > maxCSIParam {
+				param = maxCSIParam
+			}
 			paramSet = true
 			sawSeparator = false
 		}
